@@ -480,7 +480,7 @@ class AbstractInventory(ABC):
 
         """
 
-        other = Inventory(add_contents, units, True, self.decay_data)
+        other = self.__class__(add_contents, units, True, self.decay_data)
         self.contents = (self + other).contents
 
     def subtract(
@@ -512,7 +512,7 @@ class AbstractInventory(ABC):
 
         """
 
-        other = Inventory(sub_contents, units, True, self.decay_data)
+        other = self.__class__(sub_contents, units, True, self.decay_data)
         self.contents = (self - other).contents
 
     def __add__(self, other: "AbstractInventory") -> "AbstractInventory":
@@ -536,7 +536,8 @@ class AbstractInventory(ABC):
             )
         sub_contents = other.contents.copy()
         sub_contents.update(
-            (nuclide, number * -1.0) for nuclide, number in sub_contents.items()
+            (nuclide, -number if isinstance(number, Expr) else number * -1.0)
+            for nuclide, number in sub_contents.items()
         )
         new_contents = add_dictionaries(self.contents, sub_contents)
         return self.__class__(new_contents, "num", False, self.decay_data)
